@@ -30,7 +30,8 @@ namespace rkcommon {
 
     void BufferReader::read(void *mem, size_t size)
     {
-      if (cursor + size > buffer->size())
+      // (written so that a huge size cannot wrap around)
+      if (size > buffer->size() - cursor)
         throw std::runtime_error("Attempt to read past end of BufferReader!");
 
       if (mem && size > 0)
